@@ -114,6 +114,8 @@ def is_instance(v: AV, cls: str) -> bool:
     if cls not in table:
         if k == 'obj' and isinstance(v.val, tuple):
             return v.val[2] == cls
+        if cls[:1].isupper() and k in ('int', 'float', 'bool', 'str', 'none', 'list', 'tuple', 'dict', 'date', 'datetime', 'blank'):
+            return False                          # a plain value is not an instance of a library / repository class
         raise Unknown(f'isinstance(..., {cls})')
     return table[cls]
 
@@ -196,7 +198,7 @@ class Evaluator:
         self.functions: dict = {}         # module-level functions callable by bare name: name -> ast.FunctionDef
 
     # ---- functions ---------------------------------------------------------------------------------
-    def call_method(self, name: str, args: list, self_av: AV | None = None) -> AV:
+    def call_method(self, name: str, args: list, self_av: AV | None = None, kwargs: dict | None = None) -> AV:
         if name in self.hooks:
             return self.hooks[name](self, args)
         fn = self.members.get(name)
@@ -211,9 +213,14 @@ class Evaluator:
             env[params[0]] = self_av or AV('other', origin='self')
             params = params[1:]
         defaults = fn.args.defaults
+        kwargs = kwargs or {}
+        if any(k not in params for k in kwargs):
+            raise AbsRaise('TypeError', f'{name}() got an unexpected keyword argument')
         for i, p in enumerate(params):
             if i < len(args):
                 env[p] = args[i]
+            elif p in kwargs:
+                env[p] = kwargs[p]
             else:
                 di = i - (len(params) - len(defaults))
                 if di < 0:
@@ -246,6 +253,24 @@ class Evaluator:
             if isinstance(st.value, ast.Constant):
                 return
             c = st.value
+            if isinstance(c, ast.Call) and isinstance(c.func, ast.Attribute) and c.func.attr == 'pop' and isinstance(c.func.value, ast.Name) and \
+                    c.func.value.id in env and env[c.func.value.id].kind == 'list' and env[c.func.value.id].items is not None and \
+                    len(c.args) <= 1:
+                cur = env[c.func.value.id]
+                if sum(1 for v_ in env.values() if v_ is cur) > 1:
+                    raise Unknown('in-place change of a list that has two names')
+                k_ = -1
+                if c.args:
+                    kv_ = self.ev(c.args[0], env)
+                    if not isinstance(kv_.val, int):
+                        raise Unknown('pop index')
+                    k_ = kv_.val
+                items_ = list(cur.items)
+                if not items_:
+                    raise AbsRaise('IndexError', 'pop from empty list')
+                items_.pop(k_)
+                env[c.func.value.id] = AV('list', items=tuple(items_))
+                return
             if isinstance(c, ast.Call) and isinstance(c.func, ast.Attribute) and c.func.attr in ('append', 'extend', 'add', 'update') and \
                     isinstance(c.func.value, ast.Name) and c.func.value.id in env and env[c.func.value.id].kind == 'list' and \
                     env[c.func.value.id].items is not None and len(c.args) == 1:
@@ -281,6 +306,14 @@ class Evaluator:
                     if base.kind != 'obj':
                         raise Unknown('attribute store on a value that is not a modelled object')
                     self.obj_attrs(base)[t.attr] = v
+                elif isinstance(t, ast.Subscript) and isinstance(t.value, ast.Name) and t.value.id in env and \
+                        env[t.value.id].kind == 'dict' and env[t.value.id].items is not None:
+                    cur_ = env[t.value.id]
+                    if sum(1 for v__ in env.values() if v__ is cur_) > 1:
+                        raise Unknown('in-place change of a dict that has two names')
+                    key_ = self.ev(t.slice, env)
+                    kept_ = tuple(kv for kv in cur_.items if not self.eq(kv.items[0], key_))
+                    env[t.value.id] = AV('dict', items=kept_ + (AV('tuple', items=(key_, v)),))
                 elif isinstance(t, ast.Subscript):
                     base = self.ev(t.value, env)
                     key = self.ev(t.slice, env)
@@ -450,6 +483,9 @@ class Evaluator:
             self.depth -= 1
 
     def call_value(self, f: AV, args: list) -> AV:
+        if f.kind == 'other' and isinstance(f.val, tuple) and f.val[0] == 'name' and f.val[1] in ('len', 'str', 'int', 'float', 'bool'):
+            call = ast.Call(func=ast.Name(id=f.val[1], ctx=ast.Load()), args=[ast.Name(id='_arg0', ctx=ast.Load())], keywords=[])
+            return self.call(call, {'_arg0': args[0]})
         if f.kind == 'func' and isinstance(f.val, tuple):
             if f.val[0] == 'closure':
                 return self.call_closure(f.val, args)
@@ -583,6 +619,28 @@ class Evaluator:
                 except Exception:
                     pass
             raise Unknown('arithmetic')
+        if isinstance(node, ast.NamedExpr):
+            v_ = self.ev(node.value, env)
+            env[node.target.id] = v_
+            return v_
+        if isinstance(node, ast.DictComp) and len(node.generators) == 1:
+            g_ = node.generators[0]
+            it_ = self.ev(g_.iter, env)
+            if it_.items is None:
+                raise Unknown('dict comprehension over unknown contents')
+            out_ = []
+            for x_ in it_.items:
+                e2 = dict(env)
+                if isinstance(g_.target, ast.Name):
+                    e2[g_.target.id] = x_
+                elif isinstance(g_.target, ast.Tuple) and x_.items is not None and len(x_.items) == len(g_.target.elts):
+                    for t_, y_ in zip(g_.target.elts, x_.items):
+                        e2[t_.id] = y_
+                else:
+                    raise Unknown('dict comprehension target')
+                if all(truth(self.ev(c_, e2)) for c_ in g_.ifs):
+                    out_.append(AV('tuple', items=(self.ev(node.key, e2), self.ev(node.value, e2))))
+            return AV('dict', items=tuple(out_))
         if isinstance(node, ast.Dict) and all(k is not None for k in node.keys):
             return AV('dict', items=tuple(AV('tuple', items=(self.ev(k, env), self.ev(v, env))) for k, v in zip(node.keys, node.values)))
         if isinstance(node, ast.Lambda):
@@ -619,6 +677,24 @@ class Evaluator:
         if isinstance(node, ast.Set):
             return AV('list', items=tuple(self.ev(e, env) for e in node.elts))
         if isinstance(node, ast.JoinedStr):
+            parts = []
+            for v_ in node.values:
+                if isinstance(v_, ast.Constant):
+                    parts.append(str(v_.value))
+                elif isinstance(v_, ast.FormattedValue) and v_.format_spec is None and v_.conversion == -1:
+                    x_ = self.ev(v_.value, env)
+                    if x_.kind in ('str', 'int', 'bool', 'float') and x_.val is not None and not isinstance(x_.val, tuple):
+                        parts.append(str(x_.val))
+                    elif x_.kind == 'none':
+                        parts.append('None')
+                    else:
+                        parts = None
+                        break
+                else:
+                    parts = None
+                    break
+            if parts is not None:
+                return const_av(''.join(parts))
             return AV('str', text='other')
         if isinstance(node, ast.Subscript):
             base = self.ev(node.value, env)
@@ -628,6 +704,22 @@ class Evaluator:
                     if self.eq(kv.items[0], k):
                         return kv.items[1]
                 raise AbsRaise('KeyError', 'dict lookup')
+            if base.kind == 'str' and isinstance(base.val, str):
+                if isinstance(node.slice, ast.Slice):
+                    def sb(x):
+                        if x is None:
+                            return None
+                        v__ = self.ev(x, env)
+                        if not isinstance(v__.val, int):
+                            raise Unknown('slice bound')
+                        return v__.val
+                    return const_av(base.val[slice(sb(node.slice.lower), sb(node.slice.upper), sb(node.slice.step))])
+                i__ = self.ev(node.slice, env)
+                if isinstance(i__.val, int) and not isinstance(i__.val, bool):
+                    try:
+                        return const_av(base.val[i__.val])
+                    except IndexError:
+                        raise AbsRaise('IndexError', 'string index')
             if isinstance(node.slice, ast.Slice) and base.items is not None:
                 def bound(x):
                     if x is None:
@@ -686,6 +778,10 @@ class Evaluator:
             if hook is None:
                 raise Unknown(f'call of the function value {name}')
             return hook(self, [self.ev(a, env) for a in node.args])
+        if name is not None and name in getattr(self, 'constructors', {}) and \
+                (name not in env or (env[name].kind == 'other' and isinstance(env[name].val, tuple) and env[name].val[0] == 'class')):
+            return self.constructors[name]([self.ev(a, env) for a in node.args],
+                                           {k.arg: self.ev(k.value, env) for k in node.keywords if k.arg})
         if name is not None and name not in env and name in self.functions:
             return self.call_function(self.functions[name], [self.ev(a, env) for a in node.args],
                                       {k.arg: self.ev(k.value, env) for k in node.keywords if k.arg})
@@ -716,7 +812,14 @@ class Evaluator:
         if name == 'float':
             return to_float(self.ev(node.args[0], env))
         if name == 'str':
-            return to_str(self.ev(node.args[0], env))
+            v0 = self.ev(node.args[0], env)
+            if v0.kind in ('int', 'float', 'bool') and v0.val is not None:
+                return const_av(str(v0.val))
+            if v0.kind == 'none':
+                return const_av('None')
+            if v0.kind == 'obj':
+                return const_av(f'<{v0.val[2]} object>')
+            return to_str(v0)
         if name == 'bool':
             return const_av(truth(self.ev(node.args[0], env)))
         if name in ('filter', 'map') and len(node.args) == 2:
@@ -733,7 +836,15 @@ class Evaluator:
                 raise Unknown('range of unknown bounds')
             return AV('list', items=tuple(const_av(i) for i in range(*[v.val for v in vs])))
         if name == 'zip' and node.args and not node.keywords:
-            vs = [self.ev(a, env) for a in node.args]
+            vs = []
+            for a in node.args:
+                if isinstance(a, ast.Starred):
+                    sv = self.ev(a.value, env)
+                    if sv.items is None:
+                        raise Unknown('zip(*unknown)')
+                    vs.extend(sv.items)
+                else:
+                    vs.append(self.ev(a, env))
             if any(v.items is None for v in vs):
                 raise Unknown('zip of unknown contents')
             return AV('list', items=tuple(AV('tuple', items=t) for t in zip(*[v.items for v in vs])))
@@ -750,6 +861,20 @@ class Evaluator:
             if v.items is None:
                 raise Unknown(name)
             return AV('list', items=tuple(v.items))
+        if name in ('min', 'max') and (len(node.args) >= 2 or (len(node.args) == 1 and any(k.arg == 'default' for k in node.keywords))):
+            if len(node.args) >= 2:
+                cand = [self.ev(a, env) for a in node.args]
+            else:
+                seq = self.ev(node.args[0], env)
+                if seq.items is None:
+                    raise Unknown(name)
+                cand = list(seq.items)
+                if not cand:
+                    return self.ev(next(k.value for k in node.keywords if k.arg == 'default'), env)
+            if not all(isinstance(c_.val, (int, float)) and not isinstance(c_.val, bool) for c_ in cand):
+                raise Unknown(f'{name} of values without a concrete carrier')
+            pick = max if name == 'max' else min
+            return const_av(pick(c_.val for c_ in cand))
         if name in ('sorted', 'min', 'max') and len(node.args) == 1 and not node.keywords:
             v = self.ev(node.args[0], env)
             if v.items is None:
@@ -815,11 +940,16 @@ class Evaluator:
                 return replace(v, sign='zero' if v.sign == 'zero' else 'pos' if v.sign else None)
         if isinstance(f, ast.Attribute):
             # self.method(...)
+            if isinstance(f.value, ast.Name) and f.value.id == 'cls' and f.attr in self.members:
+                args = [self.ev(a, env) for a in node.args]
+                kw_ = {k.arg: self.ev(k.value, env) for k in node.keywords if k.arg}
+                return self.call_method(f.attr, args, env.get('cls'), kw_)
             if isinstance(f.value, ast.Name) and f.value.id == 'self':
                 args = [self.ev(a, env) for a in node.args]
+                kw_ = {k.arg: self.ev(k.value, env) for k in node.keywords if k.arg}
                 pref = getattr(self, 'prefix', '')
                 target = pref + f.attr if (pref + f.attr) in self.members or (pref + f.attr) in self.hooks else f.attr
-                return self.call_method(target, args, env.get('self'))
+                return self.call_method(target, args, env.get('self'), kw_)
             txt = ast.unparse(f)
             if txt == 'datetime.timedelta':
                 kw = {k.arg: self.ev(k.value, env) for k in node.keywords}
@@ -839,6 +969,13 @@ class Evaluator:
                         if isinstance(nm, ast.Attribute) and hasattr(_re, nm.attr):
                             flags |= getattr(_re, nm.attr)
                 return AV('regex', val=('regex', node.args[0].value, flags))
+            if txt == 're.findall' and len(node.args) >= 2 and isinstance(node.args[0], ast.Constant) and isinstance(node.args[0].value, str):
+                subj = self.ev(node.args[1], env)
+                if not isinstance(subj.val, str):
+                    raise Unknown('findall on a text without a concrete carrier')
+                import re as _re
+                found = _re.findall(node.args[0].value, subj.val)
+                return AV('list', items=tuple(const_av(x if isinstance(x, str) else x[0]) for x in found))
             if txt in ('re.match', 're.fullmatch', 're.search') and len(node.args) >= 2 and isinstance(node.args[0], ast.Constant) and \
                     isinstance(node.args[0].value, str):
                 subj = self.ev(node.args[1], env)
@@ -865,6 +1002,13 @@ class Evaluator:
                 return const_av(getattr(recv.val, f.attr)())
             if recv.kind == 'str' and isinstance(recv.val, str) and f.attr in ('upper', 'lower', 'strip', 'lstrip', 'rstrip') and not node.args:
                 return const_av(getattr(recv.val, f.attr)())
+            if recv.kind == 'regex' and f.attr == 'findall' and node.args:
+                subj = self.ev(node.args[0], env)
+                if not isinstance(subj.val, str):
+                    raise Unknown('findall on a text without a concrete carrier')
+                import re as _re
+                found = _re.compile(recv.val[1], recv.val[2]).findall(subj.val)
+                return AV('list', items=tuple(const_av(x if isinstance(x, str) else x[0]) for x in found))
             if recv.kind == 'regex' and f.attr in ('match', 'fullmatch', 'search') and node.args:
                 subj = self.ev(node.args[0], env)
                 if subj.kind != 'str':
